@@ -95,6 +95,19 @@ LimitsOk(t, r, s) == \A k \in LimKeys(t, r, s) : Lim(k) < LimVal(k)
 (* ------------------------------- order, readiness, bounds ------------------------------------ *)
 Before(a, b) == T(a).prio > T(b).prio \/ (T(a).prio = T(b).prio /\ T(a).seq < T(b).seq)
 Fwd(t) == ts[t].fwd
+\* Scheduling direction of every task before the loop starts.  The project-level default reaches the tasks that state none
+\* (BaseFwd); then every backward leaf with an end of its own is an ANCHOR, and the tasks it depends on (own edges, leaf
+\* predecessors only, transitively) are turned backward too so that they finish "just in time" for it -- unless a task is
+\* forward AND has a start to keep (own or inherited from a container): that one stays, and nothing beyond it is touched.
+BaseFwd(t) == IF P.alap /\ ~T(t).expl THEN FALSE ELSE T(t).fwd
+Anchors == {t \in Leafs : ~BaseFwd(t) /\ T(t).pinEnd >= 0}
+OwnPreds(t) == {d.p : d \in {x \in SeqSet(T(t).deps) : x.p # 0}}
+Keeps(t) == BaseFwd(t) /\ (T(t).pin >= 0 \/ T(t).inhStart >= 0)
+RECURSIVE PulledBack(_, _)
+PulledBack(front, seen) ==
+  LET nxt == {u \in UNION {OwnPreds(x) : x \in front} : u \notin seen /\ T(u).leaf /\ ~Keeps(u)}
+  IN  IF nxt = {} THEN seen ELSE PulledBack(nxt, seen \cup nxt)
+ExpFwd(t) == IF t \in PulledBack(Anchors, {}) THEN FALSE ELSE BaseFwd(t)
 ReadyF(t) == \A d \in AllDeps(t) : d.p # 0 /\ ts[d.p].sched
 \* forward: earliest instant; a container's start is a lower bound (D8), the task's own start a pin
 \* `gaplength`: a gap in WORKING time of the project calendar (default hours, project time, minus global vacations and
@@ -250,5 +263,12 @@ LeadInOk(t, r, s, base) == \/ \E m \in SeqSet(Members(t)) : base * R(m).effN <= 
 P06Of(t, st, en, effort) == st <= en /\ (effort > 0 => st < en)
 \* tight: the reported start lies in the earliest booked slot, the end in (the closure of) the latest one
 \* (reported times are whole seconds, D12: a residue of less than a second in the first / last slot may round onto the slot edge)
+\* long enough: what every member keeps booked for t in the first and in the last slot fits between the reported start / end and
+\* the edge of that slot (ticks of r are 1/effN seconds; one second of rounding, D12)
+KeptIn(t, r, s) == SumU(SelectSeq(Usage(r, s), LAMBDA e : e[1] = t))
+P06Fits(t, st, en, lo, hi) ==
+  \A r \in SeqSet(Members(t)) :
+     /\ KeptIn(t, r, lo) <= (Min2(en + 1, (lo + 1) * G) - (st - 1)) * R(r).effN
+     /\ KeptIn(t, r, hi) <= ((en + 1) - Max2(st - 1, hi * G)) * R(r).effN
 P06Tight(t, st, en, lo, hi) == (st \div G = lo \/ (st - 1) \div G = lo) /\ ((en - 1) \div G = hi \/ en \div G = hi)
 =======================================================================================
